@@ -7,7 +7,7 @@ globals().update(
         pid="C09",
         props=["JaqalProofs/Props/C09.lean", "JaqalProofs/Props/C09Exec.lean"],
         targets=["JaqalProofs.Props.C09", "JaqalProofs.Props.C09Exec"],
-        diffs=[("harness.agents.pass1_diff", 700, 6000), ("harness.agents.c09_scale", 100, 600)],
+        diffs=[("harness.agents.pass1_diff", 700, 6000), ("harness.agents.c09_scale", 100, 600), ("harness.agents.c09_combo", 600, 8000)],
         extra_run=extra_run,
         trusted=[
             STD_TRUST,
